@@ -601,3 +601,26 @@ func vEdVerdict(pub ed25519.PublicKey, msg, sig []byte) bool {
 func vRSAVerdict(pub *rsa.PublicKey, hash int, digest, sig []byte) bool {
 	return rsa.VerifyPSS(pub, crypto.Hash(hash), digest, sig, &rsa.PSSOptions{SaltLength: rsa.PSSSaltLengthEqualsHash}) == nil
 }
+
+// vExpectBool / vExpectInt: differential hooks. The symbolic run stores the
+// model's value of an observable with the witness; the native replay compares
+// it with what the real code produced.
+func vExpectBool(name string, actual bool) {
+	n := "expect:" + vName("x:"+name)
+	if v, ok := vDoc.Values[n]; ok {
+		if want, isB := v.(bool); isB && want != actual {
+			vFailures = append(vFailures, "model mismatch: "+name)
+			fmt.Printf("VERIF-REPLAY-VIOLATION model mismatch on %s: model %v, real code %v\n", name, want, actual)
+		}
+	}
+}
+
+func vExpectInt(name string, actual int) {
+	n := "expect:" + vName("x:"+name)
+	if v, ok := vDoc.Values[n]; ok {
+		if want := vToBig(v).Int64(); want != int64(actual) {
+			vFailures = append(vFailures, "model mismatch: "+name)
+			fmt.Printf("VERIF-REPLAY-VIOLATION model mismatch on %s: model %d, real code %d\n", name, want, actual)
+		}
+	}
+}
